@@ -120,6 +120,8 @@ def verify_monitor_elaborate():
         fv.add("interrupt-line", f"{mode}:after-the-loop", [], z3.And(z3.BoolVal(len(tail) == 1 and tail[0]["domain"] == "comb" and not tail[0]["ctx"]),
                                                                       same_expr(tail[0]["dst"], src.init_fields["i"].expr) if tail else z3.BoolVal(False),
                                                                       same_expr(tail[0]["src"], want) if tail else z3.BoolVal(False)))
+        from .hdlrec import stores_nothing_on_the_component as _frame
+        _frame(fv, ex)
         fv.add_engine_obligations(ex)
     fv.add("cover:one-source-per-mode", "vacuity", [], z3.BoolVal(n_iter == 3))
     return fv
